@@ -61,6 +61,15 @@ func genChainCase(r *rand.Rand, idx int64) *checkCase {
 		not(&Expr{Op: "or", Kids: []*Expr{not(B()), V(), B()}}),
 		&Expr{Op: "or", Kids: []*Expr{not(&Expr{Op: "or", Kids: []*Expr{not(B()), not(V())}}), B()}},
 		not(&Expr{Op: "or", Kids: []*Expr{{Op: "ttu", Rel: "parents", Comp: "viewers"}, not(V()), B()}}),
+		// (computed subject sets of a union are evaluated first whatever their
+		// position, so the exact operand that follows the cut-short one must be a
+		// traverse, a nested expression or a negation)
+		not(&Expr{Op: "or", Kids: []*Expr{not(V()), {Op: "ttu", Rel: "parents", Comp: "banned"}}}),
+		not(&Expr{Op: "or", Kids: []*Expr{{Op: "ttu", Rel: "parents", Comp: "banned"}, not(V())}}),
+		not(&Expr{Op: "or", Kids: []*Expr{not(V()), {Op: "and", Kids: []*Expr{B(), B()}}}}),
+		not(&Expr{Op: "or", Kids: []*Expr{not(V()), not(not(B()))}}),
+		not(&Expr{Op: "or", Kids: []*Expr{not(B()), not(V()), {Op: "ttu", Rel: "parents", Comp: "banned"}}}),
+		&Expr{Op: "and", Kids: []*Expr{not(&Expr{Op: "or", Kids: []*Expr{not(V()), {Op: "ttu", Rel: "parents", Comp: "banned"}}}), not(B())}},
 	)
 	rewrite := exprs[r.IntN(len(exprs))]
 	if r.IntN(3) == 0 {
